@@ -192,4 +192,80 @@ def job_hier(shape):
 
 
 def jobs(tier):
-    return [Job("hier_numbers_%s" % s, job_hier, dict(shape=s), cost=40, timeout_s=1500) for s in SHAPES if tier == "thorough" or s not in THOROUGH_ONLY]
+    return [Job("hier_numbers_%s" % s, job_hier, dict(shape=s), cost=40, timeout_s=1500) for s in SHAPES if tier == "thorough" or s not in THOROUGH_ONLY] + \
+           [Job("emitted_text_set_iteration_order", job_set_order, {}, cost=30, timeout_s=1500)]
+
+
+# ------------------------------------------------------------------------------------------------------------------------------------------
+# reproducibility, second half: the emitted text must not depend on the ITERATION ORDER of the unordered containers a design is made of
+# (attribute sets of str - whose order follows the per-process string hash seed -, the user's `ios` set, the fragment's specials set).
+# The containers are replaced by a set whose iteration order is a solver-chosen permutation (environment = nondeterministic stub); the
+# path explorer forks over every permutation and the obligation compares the real convert() text with the text for the plain containers.
+
+import itertools
+
+
+class NDSet(set):
+    """a set whose iteration order is an arbitrary permutation chosen once per run (the hash seed of a real run)"""
+    _ctx = None
+
+    def __init__(self, it, tag):
+        set.__init__(self, it)
+        self._tag = tag
+        self._order = None
+
+    def __iter__(self):
+        if self._order is None:
+            base = sorted(set.__iter__(self), key=lambda x: getattr(x, "duid", None) if hasattr(x, "duid") else repr(x))
+            perms = list(itertools.permutations(range(len(base))))
+            p = NDSet._ctx.choice("order_of_%s" % self._tag, perms) if len(perms) > 1 else perms[0]
+            self._order = [base[i] for i in p]
+        return iter(self._order)
+
+
+def _strip_dates(text):
+    return "\n".join(l for l in text.split("\n") if "Date" not in l and "Auto-Generated by LiteX on" not in l)
+
+
+def job_set_order():
+    from migen import Module, Signal, Memory, Instance, ClockDomain
+    from litex.gen.fhdl import verilog
+    TR = {"keep": ("keep", "true"), "async_reg": ("async_reg", "true"), "no_retiming": ("dont_touch", "true"), "mr_ff": ("mr_ff", "true")}
+
+    def emit(ctx, nd):
+        m = Module()
+        m.clock_domains.cd_sys = ClockDomain("sys")
+        a = Signal(4, name_override="a"); b = Signal(4, name_override="b"); q = Signal(4, name_override="q")
+        r0 = Signal(4, name_override="r0"); r1 = Signal(4, name_override="r1")
+        mem = Memory(4, 8, name="storage")
+        p = mem.get_port(write_capable=True)
+        inst = Instance("BLACKBOX", i_A=r0, o_Y=q, name="u0")
+        m.specials += mem, p, inst
+        m.sync += [r0.eq(a ^ p.dat_r), r1.eq(r0 + b)]
+        m.comb += [p.adr.eq(a[:3]), p.dat_w.eq(r1), p.we.eq(b[0])]
+        attrs0 = ["mr_ff", "async_reg", ("mark_debug", "true")]
+        attrs1 = ["keep", "async_reg"]
+        ios = [a, b, q]
+        f = m.get_fragment()
+        if nd:
+            r0.attr = NDSet(attrs0, "attr_r0"); r1.attr = NDSet(attrs1, "attr_r1"); a.attr = set(attrs1)
+            ios = NDSet(ios, "ios")
+            f.specials = NDSet(f.specials, "specials")
+        else:
+            r0.attr = set(attrs0); r1.attr = set(attrs1); a.attr = set(attrs1)
+            ios = set(ios)
+        return _strip_dates(verilog.convert(f, ios=ios, name="top", attr_translate=TR).main_source)
+
+    def body(ctx):
+        NDSet._ctx = ctx
+        ref = emit(ctx, False)
+        text = emit(ctx, True)
+        ctx.event("emitted")
+        if "(* " in ref and "async_reg" in ref:
+            ctx.event("attributes_emitted")
+        return dict(text_independent_of_set_iteration_order=(text == ref))
+
+    return run_pysym("emitted_text_set_iteration_order", body, ["text_independent_of_set_iteration_order"], required_events=["emitted", "attributes_emitted"],
+                     funcs=["litex.gen.fhdl.verilog.convert", "litex.gen.fhdl.verilog._generate_attribute", "litex.gen.fhdl.verilog._generate_module/_generate_signals/_generate_specials"],
+                     cfg=dict(nondeterministic_sets=["attr of r0 (2 str + 1 tuple)", "attr of r1 (2 str)", "ios (3)", "fragment.specials (3)"], orders=432),
+                     replay_dir=rdir(), timeout_ms=60000, max_paths=20000)
